@@ -263,6 +263,12 @@ VIEW_ATTRS = ("values", "T", "array", "real")
 VIEW_METHODS = ("squeeze", "ravel", "reshape", "view", "transpose", "to_numpy", "swapaxes")
 
 
+INPLACE_METHODS = ("sort", "fill", "resize", "put", "itemset", "partition", "setflags", "append", "extend", "insert", "pop", "popitem",
+                   "clear", "update", "setdefault", "remove", "reverse", "add", "discard", "byteswap")
+INPLACE_FUNCS = ("numpy.random.shuffle", "random.shuffle", "numpy.put", "numpy.place", "numpy.putmask", "numpy.copyto",
+                 "numpy.fill_diagonal", "numpy.put_along_axis")
+
+
 def may_alias(t: T, is_root) -> bool:
     """Can t be (a view of) a value the function did not create?  Follows numpy / pandas operations that return the same
     buffer (asarray without a dtype change, squeeze, reshape, .values, .T ...) down to a root accepted by is_root."""
@@ -309,6 +315,19 @@ def inplace_updates_of_foreign_values(r: Result, is_root, prog=None):
                 holder = holder.args[0]
             if may_alias(holder, is_root):
                 out.append((e, "item assignment"))
+    for e in r.events:
+        if e.kind != "call" or e.data.get("resolved"):
+            continue
+        f = e.data["fterm"]
+        kws = dict(e.data.get("kwargs") or ())
+        if f.op == "attr" and f.args[1] in INPLACE_METHODS and may_alias(f.args[0], is_root):
+            out.append((e, f"call of the mutating method .{f.args[1]}()"))
+        elif f.op == "attr" and kws.get("inplace") is TRUE and may_alias(f.args[0], is_root):
+            out.append((e, f"call of .{f.args[1]}(inplace=True)"))
+        elif isinstance(kws.get("out"), T) and may_alias(kws["out"], is_root):
+            out.append((e, "write through out="))
+        elif f.op == "global" and f.args[0] in INPLACE_FUNCS and e.data["args"] and may_alias(e.data["args"][0], is_root):
+            out.append((e, f"call of {f.args[0]}"))
     for e, other in shared_local_augassign(r, prog):
         if not any(e is x for x, _ in out):
             out.append((e, f"augmented assignment through a second name of `{other}`"))
@@ -318,9 +337,31 @@ def inplace_updates_of_foreign_values(r: Result, is_root, prog=None):
 # `x = y; x op= e`: for a mutable y (ndarray, Series) the second name changes too.  The instances of the clean tree whose shared
 # value is a Python number are listed here, one reason each.
 AUG_SHARED_OK = {
-    ("fairlearn.reductions._exponentiated_gradient._lagrangian:_Lagrangian._eval", "L_high", "error"):
-        "error is a Python float: Series.dot(Series) or one element of gamma()",
+    # function -> reason; applies only when every alternative of the shared value is one element (`x[0]`) or a reduction
+    # (`.dot()`, `.sum()`), so a rename of the locals does not lose the entry and a new array-valued instance is not covered
+    "fairlearn.reductions._exponentiated_gradient._lagrangian:_Lagrangian._eval":
+        "`L_high = error; L_high += ...`: error is a Python float (Series.dot(Series) or the first element of gamma())",
 }
+
+
+def _element_or_reduction(t: T) -> bool:
+    stack, n = [t], 0
+    while stack:
+        x = stack.pop()
+        n += 1
+        if n > 32:
+            return False
+        if x.op == "ite":
+            stack.extend([x.args[1], x.args[2]])
+        elif x.op == "assume":
+            stack.append(x.args[1])
+        elif x.op == "sub" and x.args[1].op == "const" and isinstance(const_value(x.args[1]), int):
+            continue
+        elif x.op == "call" and x.args[0].op == "attr" and x.args[0].args[1] in ("dot", "sum", "mean", "item"):
+            continue
+        else:
+            return False
+    return True
 
 
 def shared_local_augassign(r: Result, prog):
@@ -339,7 +380,7 @@ def shared_local_augassign(r: Result, prog):
             continue
         fi = prog.functions.get(e.func) if prog is not None else None
         for other in e.data.get("shared", ()):
-            if (e.func, e.data["name"], other) in AUG_SHARED_OK:
+            if e.func in AUG_SHARED_OK and _element_or_reduction(cur):
                 continue
             node = fi.node if fi is not None else None
             live = node is None
